@@ -115,16 +115,18 @@ Definition g_create_topic (r : registry) (q : query) : registry :=
   | _ => r
   end.
 
-(* the topic argument is NOT validated by the handler: the wildcard deletes every topic
-   and every channel *)
+(* delete topic t (a valid name): the topic key, every channel key of t, all their
+   registrations and the tombstone marks for t are gone *)
 Definition g_delete_topic (r : registry) (q : query) : registry :=
   match q with
   | QArgs (Some t) _ _ =>
-      let hit k := is_match CChannel t star k || is_match CTopic t [] k in
-      mkR (g_now r) (g_nodes r)
-          (fun k => g_key r k && negb (hit k))
-          (fun k p => g_prod r k p && negb (hit k))
-          (fun u p => if is_match CTopic t [] (topic_key u) then None else g_tomb r u p)
+      if is_valid_name t then
+        let hit k := is_match CChannel t star k || reg_eqb k (topic_key t) in
+        mkR (g_now r) (g_nodes r)
+            (fun k => g_key r k && negb (hit k))
+            (fun k p => g_prod r k p && negb (hit k))
+            (fun u p => if bytes_eqb u t then None else g_tomb r u p)
+      else r
   | _ => r
   end.
 
@@ -161,16 +163,16 @@ Definition g_node_matches (r : registry) (node : bytes) (p : peer) : bool :=
   | None => false
   end.
 
-(* tombstone t node: marks exactly the producers of t whose broadcast_address:http_port
-   is [node]; a second tombstone refreshes the time.  (With the wildcard as topic the Go
-   code marks, per matching node, one registration chosen by map iteration order: that
-   request is outside the deterministic specification, see [op_det].) *)
+(* tombstone t node (t a valid name): marks exactly the producers of t whose
+   broadcast_address:http_port is [node]; a second tombstone refreshes the time *)
 Definition g_tombstone (r : registry) (q : query) : registry :=
   match q with
   | QArgs (Some t) _ (Some node) =>
-      mkR (g_now r) (g_nodes r) (g_key r) (g_prod r)
-          (fun u p => if bytes_eqb u t && registered r p t && g_node_matches r node p
-                      then Some (g_now r) else g_tomb r u p)
+      if is_valid_name t then
+        mkR (g_now r) (g_nodes r) (g_key r) (g_prod r)
+            (fun u p => if bytes_eqb u t && registered r p t && g_node_matches r node p
+                        then Some (g_now r) else g_tomb r u p)
+      else r
   | _ => r
   end.
 
@@ -190,13 +192,6 @@ Definition g_step (r : registry) (o : op) : registry :=
   end.
 
 Definition g_run (r : registry) (h : list op) : registry := fold_left g_step h r.
-
-(* operations whose effect does not depend on Go's map iteration order *)
-Definition op_det (o : op) : bool :=
-  match o with
-  | HTombstone (QArgs (Some t) _ (Some _)) => negb (is_star t)
-  | _ => true
-  end.
 
 (* ------------------------------------------------------------------ answers *)
 (* recently pinged: connected and now - last_update <= inactive timeout *)
